@@ -152,6 +152,22 @@ def Endpoint.new (sys : Sys Root) (uri : Uri) : Except CfgErr (Endpoint Root Cha
     (Endpoint.fromShared uri).tlsConfig sys (ClientTlsConfig.build [.withEnabledRoots])
   else .ok (Endpoint.fromShared uri)
 
+/-- `Endpoint::new(dst)` with `dst` an `Endpoint` value (`D: TryInto<Endpoint>` is satisfied by
+`Endpoint` itself; generated `connect(dst)` functions pass `dst` on): an https endpoint that
+carries NO TLS connector yet gets the default one; an endpoint the caller configured keeps its
+connector (`me.tls.is_none() && …` — the tree with the `Endpoint::new` fix). -/
+def Endpoint.newFrom (sys : Sys Root) (ep : Endpoint Root Chain) : Except CfgErr (Endpoint Root Chain) :=
+  if ep.tls.isNone && ep.uri.scheme = some .https then
+    ep.tlsConfig sys (ClientTlsConfig.build [.withEnabledRoots])
+  else .ok ep
+
+/-- The tree as found (0.13.0): `Endpoint::new` replaces whatever TLS configuration an https
+endpoint carries by `ClientTlsConfig::new().with_enabled_roots()`. -/
+def Endpoint.newFromAsIs (sys : Sys Root) (ep : Endpoint Root Chain) : Except CfgErr (Endpoint Root Chain) :=
+  if ep.uri.scheme = some .https then
+    ep.tlsConfig sys (ClientTlsConfig.build [.withEnabledRoots])
+  else .ok ep
+
 /-! ### one process, several configurations and endpoints
 
 `ClientTlsConfig` is `#[derive(Clone)]` over plain owned fields (`Option<String>`, `Vec<_>`,
@@ -188,6 +204,11 @@ def Proc.exec (sys : Sys Root) (p : Proc Root Chain) : Stmt Root Chain → Proc 
     | _, _ => p
   -- `connect(&self)` / `connect_lazy(&self)` / `connect_with_connector(&self, ..)`
   | .connect _ => p
+  | .endpointNewFrom e =>
+    match p.eps[e]? with
+    | some (.ok ep) => { p with eps := p.eps ++ [Endpoint.newFrom sys ep] }
+    | some (.error err) => { p with eps := p.eps ++ [.error err] }   -- `eK?` already failed
+    | none => p
 
 def Proc.run (sys : Sys Root) (prog : List (Stmt Root Chain)) : Proc Root Chain :=
   prog.foldl (Proc.exec sys) {}
@@ -288,6 +309,40 @@ def ServerTlsConfig.tlsAcceptor (cfg : ServerTlsConfig Root Chain) : Built (Serv
       match i.load with
       | .error e => .err e
       | .ok ch => .ok { chain := ch, clientAuth := mode, alpn := [alpnH2] }
+
+/-! ### the `Server` builder (server/mod.rs): `tls_config`, `layer` -/
+
+/-- The `Server<L>` builder calls the TLS wiring can see. -/
+inductive ServerStep (Root Chain : Type)
+  /-- `.tls_config(ServerTlsConfig::new().<ops>)?` -/
+  | tlsConfig (ops : List (ServerOp Root Chain))
+  /-- `.layer(l)`: builds a `Server<Stack<..>>` field by field, `tls: self.tls` among them -/
+  | layer
+
+/-- One step on the builder's `tls: Option<TlsAcceptor>` field.  `tls_config` REPLACES the
+acceptor (`Server { tls: Some(..), ..self }`), `layer` carries it over. -/
+def ServerStep.apply (tls : Option (ServerHello Root Chain)) :
+    ServerStep Root Chain → Built (Option (ServerHello Root Chain))
+  | .tlsConfig ops =>
+    match (ServerTlsConfig.build ops).tlsAcceptor with
+    | .ok s => .ok (some s)
+    | .err e => .err e
+    | .panic => .panic
+  | .layer => .ok tls
+
+/-- `Server::builder().<steps>` with `?` after every `tls_config`: the acceptor the serve loop
+gets (`ServerIoStream::new(incoming, self.tls)`). -/
+def ServerBuilder.runFrom (tls : Option (ServerHello Root Chain)) :
+    List (ServerStep Root Chain) → Built (Option (ServerHello Root Chain))
+  | [] => .ok tls
+  | st :: rest =>
+    match st.apply tls with
+    | .ok tls' => ServerBuilder.runFrom tls' rest
+    | .err e => .err e
+    | .panic => .panic
+
+def ServerBuilder.run (steps : List (ServerStep Root Chain)) : Built (Option (ServerHello Root Chain)) :=
+  ServerBuilder.runFrom none steps
 
 /-! ### connection info → request extensions → `Request::peer_certs` -/
 
